@@ -156,6 +156,13 @@ template <class T, class M, class V, int N> static void svd_eig (Gen<T>& g, int 
     if (mode == 9) for (int i = 0; i < N; ++i) for (int j = 0; j < i; ++j) A[i][j] = (T) 0;                            // upper triangular
     if (mode == 10) { for (int i = 0; i < N; ++i) for (int j = 0; j < N; ++j) A[i][j] = (i == j) ? (T) 1 : (T) 0; for (int j = 0; j < N - 1; ++j) A[N - 1][j] = (T) (j + 2); }   // a translation matrix
     if (mode == 11) { for (int i = 0; i < N; ++i) for (int j = 0; j < N; ++j) A[i][j] = (i == j) ? (T) (1 + i) : (T) 0; A[1 + (it / 12) % (N - 1)][0] = (T) 0.75; }             // diagonal plus one sub-diagonal entry
+    // the decompositions are scale invariant: the same matrices at magnitudes far below and above one (an absolute threshold
+    // on the off-diagonal part would treat a small matrix as already diagonal)
+    {
+        static const int ef[3] = {0, -27, 20}, ed[3] = {0, -60, 40};
+        int e = (sizeof (T) == 4 ? ef : ed)[(it / 12) % 3];
+        if (e != 0) for (int i = 0; i < N; ++i) for (int j = 0; j < N; ++j) A[i][j] = (T) std::ldexp ((double) A[i][j], e);
+    }
     for (int fp = 0; fp < 2; ++fp)
     {
         M U, Vm; V S;
@@ -167,6 +174,11 @@ template <class T, class M, class V, int N> static void svd_eig (Gen<T>& g, int 
     for (int i = 0; i < N; ++i) for (int j = i; j < N; ++j) { Sy[i][j] = Sy[j][i] = A[i][j]; }
     if (mode == 3) for (int i = 0; i < N; ++i) for (int j = 0; j < N; ++j) Sy[i][j] = (i == j) ? (T) 2 : ((i + j == 1) ? (T) 1 : (T) 0);   // equal diagonal, non-zero off-diagonal
     if (mode == 4) for (int i = 0; i < N; ++i) for (int j = 0; j < N; ++j) Sy[i][j] = (T) 1;                                             // all ones
+    if ((it / 12) % 3 != 0 && (mode == 3 || mode == 4))
+    {
+        int e = (sizeof (T) == 4 ? ((it / 12) % 3 == 1 ? -27 : 20) : ((it / 12) % 3 == 1 ? -60 : 40));
+        for (int i = 0; i < N; ++i) for (int j = 0; j < N; ++j) Sy[i][j] = (T) std::ldexp ((double) Sy[i][j], e);
+    }
     {
         M W = Sy, Vm; V S;
         jacobiEigenSolver (W, S, Vm);
